@@ -243,4 +243,114 @@ theorem identityref_needs_base (r : Registry) (dict : Dict) (m : Mod) (ty : Stmt
   unfold identityrefBase
   simp [h]
 
+/-! ### non-vacuity: a diamond across two modules, one corner in a sub-submodule
+
+```
+module a    { prefix a; include sa; identity top; identity left { base top; } }
+submodule sa { belongs-to a { prefix a; } include sb; }
+submodule sb { belongs-to a { prefix x; } identity deep { base x:left; } }
+module b    { prefix b; import a { prefix pa; }
+              identity right { base pa:top; } identity bottom { base pa:left; base right; }
+              leaf l { type identityref { base pa:top; } } }
+```
+loaded in the order b, sb, a, sa.  All hypotheses of the theorems hold of it, and the model computes
+`a:top ↦ [b:bottom, a:deep, a:left, b:right]` under two different map orders.  A second example (a
+two-cycle through both modules plus a dangling base) shows the hypotheses of `identity_errors`. -/
+
+namespace Example
+open Goyang.Lemmas.Identity (regOK_of_entries linkOK_of_all acyclic_of_rank)
+
+def st (kw arg : String) (subs : List Stmt := []) : Stmt := .mk kw true arg "x.yang" 1 1 subs
+
+def modA : Stmt := st "module" "a" [st "namespace" "urn:a", st "prefix" "a", st "include" "sa",
+  st "identity" "top", st "identity" "left" [st "base" "top"]]
+def subSA : Stmt := st "submodule" "sa" [st "belongs-to" "a" [st "prefix" "a"], st "include" "sb"]
+def subSB : Stmt := st "submodule" "sb" [st "belongs-to" "a" [st "prefix" "x"],
+  st "identity" "deep" [st "base" "x:left"]]
+def tyL : Stmt := st "type" "identityref" [st "base" "pa:top"]
+def modB : Stmt := st "module" "b" [st "namespace" "urn:b", st "prefix" "b", st "import" "a" [st "prefix" "pa"],
+  st "identity" "right" [st "base" "pa:top"],
+  st "identity" "bottom" [st "base" "pa:left", st "base" "right"],
+  st "leaf" "l" [tyL]]
+
+def load (files : List SrcFile) : Registry :=
+  match loadAll files with
+  | .ok r => r
+  | .error _ => {}
+
+def R : Registry := load [⟨"b", [modB]⟩, ⟨"sb", [subSB]⟩, ⟨"a", [modA]⟩, ⟨"sa", [subSA]⟩]
+
+def link (r : Registry) : Link :=
+  match linkAll (Oracle.ofNat 0) r with
+  | some (lk, _) => lk
+  | none => {}
+
+/-- The graph the specification reads off `R`. -/
+def GR : Graph :=
+  { verts := [("b", "right"), ("b", "bottom"), ("a", "top"), ("a", "left"), ("a", "deep")]
+    edges := [(("b", "right"), ("a", "top")), (("b", "bottom"), ("a", "left")), (("b", "bottom"), ("b", "right")),
+      (("a", "left"), ("a", "top")), (("a", "deep"), ("a", "left"))]
+    dangling := [], orphans := [], missing := [] }
+
+deriving instance DecidableEq for Graph
+
+example : graph R = some GR := by decide
+example : (linkAll (Oracle.ofNat 0) R).map (·.2) = some [] := by decide
+theorem linked_R : Linked R (link R) := linkOK_of_all (by decide)
+theorem wellFormed_R : WellFormed R :=
+  ⟨regOK_of_entries (by decide), by decide, fun G hG => by
+    have : graph R = some GR := by decide
+    rw [this] at hG
+    cases hG
+    show GR.verts.Nodup
+    decide⟩
+theorem acyclic_GR : Acyclic GR :=
+  acyclic_of_rank (fun v => if v.2 == "top" then 0 else if v.2 == "left" then 1 else if v.2 == "bottom" then 3 else 2)
+    (by decide)
+example : AllBasesResolve GR := ⟨rfl, rfl⟩
+example : (Oracle.ofNat 0).order (α := Nat) 3 [1, 2, 3] ≠ (Oracle.ofNat 5).order 3 [1, 2, 3] := by decide
+
+/-- What the model computes for the example, under two map orders. -/
+example : ((resolveIdentities (Oracle.ofNat 0) R (link R) (fun _ => [])).map fun res =>
+      (res.vals ("a", "top"), res.vals ("a", "left"), res.vals ("b", "right"), res.vals ("b", "bottom"), res.errs.length)) =
+    some ([("b", "bottom"), ("a", "deep"), ("a", "left"), ("b", "right")],
+      [("b", "bottom"), ("a", "deep")], [("b", "bottom")], [], 0) := by decide
+example : ((resolveIdentities (Oracle.ofNat 5) R (link R) (fun _ => [])).map fun res =>
+      (res.vals ("a", "top"), res.vals ("a", "left"), res.vals ("b", "right"), res.vals ("b", "bottom"), res.errs.length)) =
+    some ([("b", "bottom"), ("a", "deep"), ("a", "left"), ("b", "right")],
+      [("b", "bottom"), ("a", "deep")], [("b", "bottom")], [], 0) := by decide
+/-- The identityref leaf of module `b` points at `a:top`. -/
+example : ((resolveIdentities (Oracle.ofNat 0) R (link R) (fun _ => [])).bind fun res =>
+      (R.byId 0).map fun b => (identityrefBase R res.dict b tyL).toOption.map (·.vtx)) = some (some ("a", "top")) := by
+  decide
+example : (R.byId 0).map (fun b => refTarget R GR b "pa:top") = some (some ("a", "top")) := by decide
+
+/-- A two-cycle through both modules, and a dangling base. -/
+def modC : Stmt := st "module" "c" [st "namespace" "urn:c", st "prefix" "c", st "import" "d" [st "prefix" "d"],
+  st "identity" "x" [st "base" "d:y"], st "identity" "z" [st "base" "nosuch"]]
+def modD : Stmt := st "module" "d" [st "namespace" "urn:d", st "prefix" "d", st "import" "c" [st "prefix" "c"],
+  st "identity" "y" [st "base" "c:x"]]
+def R2 : Registry := load [⟨"c", [modC]⟩, ⟨"d", [modD]⟩]
+def GR2 : Graph :=
+  { verts := [("c", "x"), ("c", "z"), ("d", "y")]
+    edges := [(("c", "x"), ("d", "y")), (("d", "y"), ("c", "x"))]
+    dangling := [(("c", "z"), "nosuch")], orphans := [], missing := [] }
+example : graph R2 = some GR2 := by decide
+example : Linked R2 (link R2) := linkOK_of_all (by decide)
+example : WellFormed R2 :=
+  ⟨regOK_of_entries (by decide), by decide, fun G hG => by
+    have : graph R2 = some GR2 := by decide
+    rw [this] at hG
+    cases hG
+    show GR2.verts.Nodup
+    decide⟩
+example : GR2.dangling ≠ [] := by decide
+example : ¬ Acyclic GR2 := fun h =>
+  h ("c", "x") (Derives.step (k := ("d", "y")) (by decide) (Derives.base (by decide)))
+example : ((resolveIdentities (Oracle.ofNat 0) R2 (link R2) (fun _ => [])).map fun res =>
+      (res.vals ("c", "x"), res.errs.map (·.cls))) =
+    some ([("c", "x"), ("d", "y")], ["identity-base-local", "cycle", "cycle"]) := by decide
+
+end Example
+
 end Goyang.Props.C11
